@@ -16,7 +16,7 @@ use vcore::*;
 use wow_adt::{AdtBuilder, BuiltAdt, ParsedAdt, RootAdt};
 
 const ROUNDS: usize = 3;
-const MAX_FILE: usize = 40 << 20;
+const MAX_FILE: usize = 12 << 20;
 
 struct Case {
     base: &'static str,
@@ -451,7 +451,7 @@ fn main() {
         "builder inputs = all specs with <= {dmin} deviations from the minimal baseline and <= {dfull} from the version-adjusted full baseline over {} sites ({} site values in total) x 6 target versions (VanillaEarly..MoP), canonicalised (sites without effect reset) and de-duplicated{}; per case: build -> to_bytes -> independent walker -> parse_adt -> content comparison with the input, then {ROUNDS} rounds of parse -> rebuild -> to_bytes on two rebuild paths (BuiltAdt::from_root_adt(root, None) and AdtBuilder::from_parsed(root).build()), every produced file walked. A case is non-trivial when the builder accepted it and a file was produced; distinct by (version, site vector).",
         NSITES,
         SITES.iter().map(|s| s.vals.len()).sum::<usize>(),
-        if tier == Tier::Quick { "; quick: 256 populated MCNK only as a single deviation" } else { "" }
+        if tier == Tier::Quick { "; 256 populated MCNK only as a single deviation" } else { "; with 3 deviations inputs that the builder documents as refused are not enumerated again" }
     );
     c.assume("content equality is judged on a canonical byte rendering of every section (floats by bit pattern); derived fields are excluded: MCNK header offsets/sizes/n_layers/n_snd_emitters, MCNR trailing padding, MH2O header/instance offsets and layer_count, MHDR/MCIN/MMID/MWID (checked by the walker instead); an empty section equals an absent one");
     c.assume("detected version is not content: version detection from chunk presence may legitimately report an older version when no newer chunk is present (counted, not judged); content lost because of it is judged");
